@@ -13,11 +13,17 @@ Semantics fixed by this simulation (see Model/Gcsa.v for the mirror image):
     events and the expanded instances of recurring masters with end > time_min and start < time_max,
     in a stable order by start instant; instances carry recurring_event_id = master id and the id
     "<master>_<YYYYMMDDTHHMMSSZ of the instance start>";
-  * recurring masters: RRULE:FREQ=DAILY|WEEKLY[;INTERVAL=k][;BYDAY=..] expanded on the wall clock of
-    the event's zone from the master's start on (all-day: dates); every EXDATE (inside the RRULE line
-    the way the adapter writes it, or on a line of its own) excludes the instance starting at that
-    instant; an instance ends at its start's wall clock plus the master's wall-clock
+  * recurring masters: RRULE:FREQ=DAILY|WEEKLY[;INTERVAL=k][;BYDAY=..][;UNTIL=..|;COUNT=n] expanded on
+    the wall clock of the event's zone from the master's start on (all-day: dates); every EXDATE (inside
+    the RRULE line the way the adapter writes it, or on a line of its own) excludes the instance starting
+    at that instant; an instance ends at its start's wall clock plus the master's wall-clock
     duration (start and end keep their local times across DST changes);
+  * UNTIL is an INCLUSIVE upper bound on occurrence starts (RFC 5545): UNTIL=YYYYMMDDTHHMMSSZ bounds the
+    true start instant of an occurrence (the last occurrence of a series may start exactly at UNTIL),
+    UNTIL=YYYYMMDD bounds its local date (the date of an all-day occurrence, the wall-clock date in the
+    event's zone of a timed one); COUNT=n keeps the first n occurrences of the rule counted from the
+    master's start, BEFORE exclusions (an excluded occurrence still counts); a line with UNTIL and
+    COUNT, or with one of them twice, is rejected;
   * timed events are handed out as gcsa Event objects whose start/end are aware datetimes in the
     event's zone (or the calendar's), as fixed-offset aware datetimes (what gcsa parses from the
     API), or, for stub-like data, naive wall clocks with a `timezone` name;
@@ -75,13 +81,16 @@ def midnight(zone: ZoneInfo, day: int) -> int:
 
 
 def parse_recurrence(lines):
-    """-> dict(weekly, interval, byday(list of 0..6), ex(list of instants), parts, extra)
+    """-> dict(weekly, interval, byday(list of 0..6), ex(list of instants), parts, extra, until_t, until_d,
+    count)
     parts: the EXDATE parts inside line 0 in order (each a list of instants); extra: instants of
-    EXDATE lines of their own.  Anything else raises (the simulation only knows simple rules)."""
+    EXDATE lines of their own; until_t: instant of UNTIL=...Z, until_d: day number of UNTIL=YYYYMMDD.
+    Anything else raises (the simulation only knows simple rules)."""
     line0 = lines[0]
     if not line0.startswith("RRULE:"):
         raise BackendError("recurrence[0] is not an RRULE")
     weekly, interval, byday, parts = None, 1, [], []
+    until_t = until_d = count = None
     for p in line0[len("RRULE:"):].split(";"):
         m = re.fullmatch(r"EXDATE[:=](.+)", p)
         if m:
@@ -94,6 +103,14 @@ def parse_recurrence(lines):
             interval = int(v)
         elif k == "BYDAY":
             byday = [WD.index(x) for x in v.split(",")]
+        elif k in ("UNTIL", "COUNT") and (until_t, until_d, count) != (None, None, None):
+            raise BackendError("UNTIL and COUNT must not occur together or twice")
+        elif k == "UNTIL" and re.fullmatch(r"\d{8}T\d{6}Z", v):
+            until_t = parse_exdate(v)
+        elif k == "UNTIL" and re.fullmatch(r"\d{8}", v):
+            until_d = dn(datetime.strptime(v, "%Y%m%d").date())
+        elif k == "COUNT" and re.fullmatch(r"\d+", v) and int(v) >= 1:
+            count = int(v)
         else:
             raise BackendError(f"unsupported RRULE part {p}")
     if weekly is None:
@@ -105,7 +122,7 @@ def parse_recurrence(lines):
             raise BackendError(f"unsupported recurrence line {ln}")
         extra += [parse_exdate(x) for x in m.group(1).split(",")]
     return dict(weekly=weekly, interval=interval, byday=byday, parts=parts, extra=extra,
-                ex=[t for p in parts for t in p] + extra)
+                ex=[t for p in parts for t in p] + extra, until_t=until_t, until_d=until_d, count=count)
 
 
 class Stored:
@@ -253,16 +270,22 @@ class FakeGoogleCalendar:
             dur_days = dur // DAY + 2
         if hi is None:
             hi = (midnight(self.zone, day0) if st.all_day else st.s) + 800 * DAY
-        first = day0 if lo is None else max(day0, lo // DAY - dur_days - 2)
+        first = day0 if lo is None or r["count"] is not None else max(day0, lo // DAY - dur_days - 2)
         last = hi // DAY + 2
         mon0 = day0 - (day0 + 3) % 7
         byday = r["byday"] or [(day0 + 3) % 7]
+        n_occ = 0                           # occurrences of the rule seen so far (meaningful from day0 on)
         for d in range(first, last + 1):
             if r["weekly"]:
                 wd = (d + 3) % 7
                 if wd not in byday or ((d - wd - mon0) // 7) % r["interval"] != 0:
                     continue
             elif (d - day0) % r["interval"] != 0:
+                continue
+            n_occ += 1
+            if r["count"] is not None and n_occ > r["count"]:
+                continue
+            if r["until_d"] is not None and d > r["until_d"]:
                 continue
             if st.all_day:
                 s, e = midnight(self.zone, d), midnight(self.zone, d + ndays)
@@ -272,6 +295,8 @@ class FakeGoogleCalendar:
                 s = int(nv.replace(tzinfo=z).timestamp())
                 e = int(from_wall(d * DAY + sod + wdur).replace(tzinfo=z).timestamp())
                 key = (s, e)
+            if r["until_t"] is not None and s > r["until_t"]:
+                continue
             if s in r["ex"]:
                 continue
             if (lo is None or e > lo) and s < hi:
